@@ -3,7 +3,9 @@ import chan_common as cc
 
 def run(tier, seed):
     return cc.run_check("C10", tier, seed,
-        mc_cfgs=(["ChanMC_c10.cfg"], ["ChanMC_c10.cfg", "ChanMC_c10t.cfg"]),
+        mc_cfgs=(["ChanMC_c10.cfg", "EventHold:EventHold.cfg"], ["ChanMC_c10.cfg", "ChanMC_c10t.cfg", "EventHold:EventHold.cfg"]),
+        mutant_cfgs=("EventHold:EventHoldMutant.cfg",),
+        mc_actions_by_module={"EventHold": ("RecvFulfil", "RecvCS", "RecvRAA", "Handle", "Refuse", "ForgetLands", "PersistManager", "Crash")},
         profiles=[("crash", 2, 200), ("crashcross", 2, 300), ("crash", 3, 80)],
         thorough_profiles=[("crash", 2, 5000), ("crashcross", 2, 6000), ("crash", 3, 2000)],
         families=[("inflight", 250), ("stalehold", 200), ("evhold", 250)], thorough_families=[("inflight", 6000), ("stalehold", 4000), ("evhold", 5000), ("failwin", 2000)],
